@@ -40,7 +40,13 @@ def tinfoKind (c : Json) : Json :=
 
 /-- kind `resolve` (C17) -/
 def resolveKind (c : Json) : Json :=
-  resultOf (Did.resolve hashFam (oraclesOf c) (getStr c "ns") (getStr c "did"))
+  let pd := match Did.parseDID (getStr c "ns") (getStr c "did") with
+    | .short => "short"
+    | .long .. => "long"
+    | .error => "err"
+  match resultOf (Did.resolve hashFam (oraclesOf c) (getStr c "ns") (getStr c "did")) with
+  | .obj kvs => .obj (kvs ++ [("parse_did", .str pd)])
+  | j => j
 
 /-- kind `process` (C17): ProcessOperation, then ResolveDocument of the returned id -/
 def processKind (c : Json) : Json :=
